@@ -25,7 +25,9 @@ def parse_ctx_line(line: str) -> gen_ctx.Ctx:
     if f[1]:
         for kv in f[1].split(";"):
             k, v = kv.split(":")
-            ctx.scope[k] = int(v)
+            ctx.scope[k] = int(v.rstrip("n"))
+            if v.endswith("n"):
+                ctx.npkeys.add(k)
     phase = 0
     for c in f[2:]:
         g = c.split("|")
@@ -67,9 +69,9 @@ def _slot(sp: str, v: str):
     if sp in ("-", "-a"):
         return gen_ctx.Slot(None, None, False, _val(v))
     cls, opt, shape = sp.split(",", 2)
-    if opt not in ("0", "1", "4", "5", "7"):
+    if opt not in ("0", "1", "4", "5", "7", "A"):
         raise ValueError("general union")
-    return gen_ctx.Slot(cls, None if shape == "<None>" else shape, opt != "0", _val(v))
+    return gen_ctx.Slot(cls, None if shape == "<None>" else shape, opt not in ("0", "A"), _val(v))
 
 
 def parse_call_line(line: str) -> gen_ctx.Ctx:
@@ -79,12 +81,14 @@ def parse_call_line(line: str) -> gen_ctx.Ctx:
     if f[3]:
         for kv in f[3].split(";"):
             k, v = kv.split(":")
-            ctx.scope[k] = int(v)
+            ctx.scope[k] = int(v.rstrip("n"))
+            if v.endswith("n"):
+                ctx.npkeys.add(k)
     for it in f[4:]:
         g = it.split("|")
         if g[0] in ("D", "AL", "VA", "VK"):
             continue
-        if g[0] in ("P", "PD"):
+        if g[0] in ("P", "PD", "PE"):
             name, mode, specs, val = g[1], g[2], g[3], g[4]
         else:
             name, mode, specs, val = "return", g[1], g[2], g[3]
